@@ -1,14 +1,192 @@
 (* C13 - solvent-accessible areas are correct, additive and selection-independent.
-   Only statements, closed by [exact], and Print Assumptions. *)
+   Only statements, closed by [exact], and Print Assumptions.
+   Model: MD.Sasa.Model (exact integer arithmetic; sphere points an argument; K stands for 4*pi/n_sphere_points).
+   What is NOT covered by these theorems: float32 rounding inside the kernel, the float code that generates the
+   golden-spiral points, the quadrature error of that point set (those are tied/measured by the correspondence). *)
 From Coq Require Import String.
 From Coq Require Import List Arith ZArith Bool.
 Import ListNotations.
 Require Import MD.Sched.ParFor MD.Sasa.Model MD.Sasa.Proofs MD.Gen.SasaTables.
 Open Scope Z_scope.
 
+(* ---- correct: the count is an independent evaluation on the same point set ---- *)
+
 (* The count the C loop produces with its rotating closest-neighbour cache, started from any cache position, is the
-   number of sphere points that are strictly inside none of the neighbour spheres - for every point set. *)
+   number of sphere points strictly inside none of the neighbour spheres - for EVERY point set. *)
 Theorem opt_eq_naive : forall M a nb pts kc acc,
   count_cached M a nb pts kc acc = acc + count_naive M a nb pts.
 Proof. exact count_cached_naive. Qed.
 Print Assumptions opt_eq_naive.
+
+(* An atom that fails the sum-of-radii prefilter never contains a point of the atom's sphere (|s| <= 1). *)
+Theorem prefilter_never_blocks : forall M (a b : atom) (s : vec),
+  0 <= M -> 0 <= snd a -> 0 <= snd b -> norm2 s <= M * M ->
+  is_nbr a b = false -> inside M (centred M a s) b = false.
+Proof. exact non_neighbour_never_blocks. Qed.
+Print Assumptions prefilter_never_blocks.
+
+(* Hence: what asa_frame counts for atom i = number of points not strictly inside ANY other atom's expanded
+   sphere (prefilter and cache are pure optimisations), for point sets on or inside the unit sphere. *)
+Theorem count_is_spec : forall M pts ats i a,
+  0 <= M -> 0 <= snd a -> Forall (fun b => 0 <= snd b) ats -> Forall (fun s => norm2 s <= M * M) pts ->
+  atom_count M pts ats i a = count_naive M a (others ats i) pts.
+Proof. exact atom_count_spec. Qed.
+Print Assumptions count_is_spec.
+
+(* An isolated selected atom gets n_points * K * r^2, i.e. 4*pi*(r+probe)^2 for K = 4*pi/n_points. *)
+Theorem isolated_full : forall K M pts radii sel fr j,
+  length fr = length radii ->
+  match sel with Some idx => forallb (fun i => Nat.ltb i (length radii)) idx = true | None => True end ->
+  (j < length radii)%nat -> selected sel j = true ->
+  (forall k b, nth_error (combine fr radii) k = Some b -> k <> j ->
+               is_nbr (nth j (combine fr radii) dflt_atom) b = false) ->
+  nth j (atom_row K M pts radii sel fr) 0 = Z.of_nat (length pts) * (K * nth j radii 0 * nth j radii 0).
+Proof. exact isolated_full_row. Qed.
+Print Assumptions isolated_full.
+
+(* ---- additive ---- *)
+
+(* Residue mode is the sum of atom mode over each residue's selected atoms (same selection, same frame). *)
+Theorem residue_is_sum : forall K M pts radii sel fr,
+  length fr = length radii ->
+  match sel with Some idx => forallb (fun i => Nat.ltb i (length radii)) idx = true | None => True end ->
+  forall resid nres, length resid = length radii ->
+  forall g, (g < nres)%nat -> group_selected resid sel g = true ->
+  nth g (group_row K M pts radii sel fr resid nres) 0 =
+  gsum g resid (zero_unselected (mask_of (length radii) sel) (atom_row K M pts radii sel fr)).
+Proof. exact residue_row_is_sum. Qed.
+Print Assumptions residue_is_sum.
+
+(* ---- selection-independent ---- *)
+
+(* Restricting the output to a subset does not change the value of an atom that is kept ... *)
+Theorem subset_independent : forall K M pts radii sel fr j,
+  length fr = length radii ->
+  match sel with Some idx => forallb (fun i => Nat.ltb i (length radii)) idx = true | None => True end ->
+  (j < length radii)%nat -> selected sel j = true ->
+  nth j (atom_row K M pts radii sel fr) 0 = nth j (atom_row K M pts radii None fr) 0.
+Proof. exact subset_independent_atom. Qed.
+Print Assumptions subset_independent.
+
+(* ... nor, in residue mode, the contribution of the atoms kept. *)
+Theorem subset_independent_residue : forall K M pts radii sel fr resid nres g,
+  length fr = length radii ->
+  match sel with Some idx => forallb (fun i => Nat.ltb i (length radii)) idx = true | None => True end ->
+  length resid = length radii -> (g < nres)%nat -> group_selected resid sel g = true ->
+  nth g (group_row K M pts radii sel fr resid nres) 0 =
+  gsum g resid (zero_unselected (mask_of (length radii) sel) (atom_row K M pts radii None fr)).
+Proof. exact residue_subset. Qed.
+Print Assumptions subset_independent_residue.
+
+(* Unselected atoms, and residues with no selected atom, are reported as -1. *)
+Theorem unselected_minus1 : forall K M pts radii sel fr j,
+  length fr = length radii ->
+  match sel with Some idx => forallb (fun i => Nat.ltb i (length radii)) idx = true | None => True end ->
+  (j < length radii)%nat -> selected sel j = false ->
+  nth j (atom_row K M pts radii sel fr) 0 = -1.
+Proof. exact unselected_atom_minus1. Qed.
+Print Assumptions unselected_minus1.
+
+Theorem unselected_minus1_residue : forall K M pts radii sel fr resid nres g,
+  length fr = length radii -> length resid = length radii -> (g < nres)%nat -> group_selected resid sel g = false ->
+  nth g (group_row K M pts radii sel fr resid nres) 0 = -1.
+Proof. exact unselected_residue_minus1. Qed.
+Print Assumptions unselected_minus1_residue.
+
+(* ---- radii ---- *)
+
+(* radius of atom j = (change_radii[symbol] if present else table[symbol]) + probe; nothing else changes. *)
+Theorem radii_effect : forall tbl change probe elems l,
+  radii_of tbl change probe elems = Some l ->
+  length l = length elems /\
+  forall j, (j < length elems)%nat ->
+    exists v, match lookup_radius (nth j elems EmptyString) change with
+              | Some w => w = v
+              | None => lookup_radius (nth j elems EmptyString) tbl = Some v
+              end /\ nth j l 0 = v + probe.
+Proof. exact radii_of_spec. Qed.
+Print Assumptions radii_effect.
+
+Theorem radii_missing_symbol_is_error : forall tbl change probe elems e,
+  In e elems -> lookup_radius e (change ++ tbl) = None -> radii_of tbl change probe elems = None.
+Proof. exact radii_of_missing. Qed.
+Print Assumptions radii_missing_symbol_is_error.
+
+(* the table regenerated from sasa.py in this run: positive radii, no duplicate symbol *)
+Theorem radii_table_wellformed : table_wf atomic_radii_U = true.
+Proof. exact atomic_radii_wf. Qed.
+Print Assumptions radii_table_wellformed.
+
+(* ---- every frame starts from zero ---- *)
+
+(* Repaired kernel (buffer zeroed per frame): for every schedule that runs each frame, each frame's row is the frame
+   evaluated on its own. *)
+Theorem frame_fresh_fixed : forall K M pts radii mask mapping row0 frames sched,
+  covers (length frames) sched ->
+  sasa_kernel K M pts radii mask mapping row0 true frames sched =
+  map (fun fr => Some (frame_row K M pts radii mask mapping row0 fr)) frames.
+Proof. exact sasa_fix_frame_fresh. Qed.
+Print Assumptions frame_fresh_fixed.
+
+(* Today's kernel (buffer carried across the frames of a thread): the same statement is FALSE ... *)
+Theorem frame_fresh_current_refuted : exists K M pts radii mask mapping row0 frames sched,
+  covers (length frames) sched /\
+  sasa_kernel K M pts radii mask mapping row0 false frames sched <>
+  map (fun fr => Some (frame_row K M pts radii mask mapping row0 fr)) frames.
+Proof. exact sasa_cur_refuted. Qed.
+Print Assumptions frame_fresh_current_refuted.
+
+(* ... although it holds when every frame has a thread of its own (why 16 threads hide the defect). *)
+Theorem frame_fresh_current_one_thread_per_frame : forall K M pts radii mask mapping row0 frames,
+  sasa_kernel K M pts radii mask mapping row0 false frames (sched_one_each (length frames)) =
+  map (fun fr => Some (frame_row K M pts radii mask mapping row0 fr)) frames.
+Proof. exact sasa_cur_one_thread_per_frame. Qed.
+Print Assumptions frame_fresh_current_one_thread_per_frame.
+
+(* shrake_rupley as a whole (sasa.py + repaired kernel) does not depend on the schedule, and its rows are the
+   single-frame rows the theorems above speak about. *)
+Theorem shrake_rupley_schedule_independent : forall c sc1 sc2,
+  covers (length (c_frames c)) sc1 -> covers (length (c_frames c)) sc2 ->
+  shrake_rupley true sc1 c = shrake_rupley true sc2 c.
+Proof. exact shrake_rupley_schedule_free. Qed.
+Print Assumptions shrake_rupley_schedule_independent.
+
+Theorem shrake_rupley_is_rows : forall c sched rows,
+  covers (length (c_frames c)) sched -> shrake_rupley true sched c = Ok rows ->
+  exists radii, radii_of (c_tbl c) (c_change c) (c_probe c) (c_elems c) = Some radii /\
+    let n := length (c_elems c) in
+    let mapping := mapping_of (c_mode c) n (c_resid c) in
+    let ng := match c_mode c with AtomMode => n | ResidueMode => c_nres c end in
+    rows = map (fun fr => Some (frame_row (c_K c) (c_M c) (c_pts c) radii (mask_of n (c_sel c)) mapping
+                                          (init_row ng mapping (c_sel c)) fr)) (c_frames c).
+Proof. exact shrake_rupley_rows. Qed.
+Print Assumptions shrake_rupley_is_rows.
+
+(* ---- non-vacuity: the hypotheses are satisfiable by non-trivial instances ---- *)
+
+(* two overlapping atoms, a selection of one atom, two residues, six points on the unit sphere (M = 4):
+   all hypotheses of the theorems above hold and the outputs are not trivial *)
+Definition ex_pts : list vec := [(4, 0, 0); (-4, 0, 0); (0, 4, 0); (0, -4, 0); (0, 0, 4); (0, 0, -4)].
+Definition ex_radii : list Z := [10; 8; 6].
+Definition ex_frame : frame := [(0, 0, 0); (12, 0, 0); (100, 0, 0)].
+Example hypotheses_satisfiable :
+  length ex_frame = length ex_radii /\
+  forallb (fun i => Nat.ltb i (length ex_radii)) [2%nat; 0%nat] = true /\
+  Forall (fun s => norm2 s <= 4 * 4) ex_pts /\
+  Forall (fun b => 0 <= snd b) (combine ex_frame ex_radii) /\
+  atom_row 1 4 ex_pts ex_radii (Some [2%nat; 0%nat]) ex_frame = [500; -1; 216] /\
+  group_row 1 4 ex_pts ex_radii (Some [2%nat; 0%nat]) ex_frame [0%nat; 0%nat; 1%nat] 3 = [500; 216; -1] /\
+  atom_row 1 4 ex_pts ex_radii None ex_frame = [500; 320; 216] /\
+  covers 3 (sched_static 3 2).
+Proof.
+  repeat split; try reflexivity; try (repeat constructor; cbn; discriminate).
+  - intros i Hi. destruct i as [|[|[|i]]]; cbn; auto. exfalso. cbn in Hi. Lia.lia.
+  - intros i Hi. cbn in Hi. destruct Hi as [<-|[<-|[<-|[]]]]; Lia.lia.
+Qed.
+Print Assumptions hypotheses_satisfiable.
+
+Example radii_hypothesis_satisfiable :
+  radii_of atomic_radii_U [("C"%string, 104857600)] 146800640 ["C"%string; "O"%string; "Cl"%string] =
+  Some [104857600 + 146800640; 159383552 + 146800640; 189792256 + 146800640].
+Proof. vm_compute. reflexivity. Qed.
+Print Assumptions radii_hypothesis_satisfiable.
